@@ -2,6 +2,8 @@
 
 package kv
 
+import "github.com/lindb/lindb/kv/table"
+
 // VerifWaitBackground waits until the family's background compaction/rollup goroutines have finished.
 func VerifWaitBackground(f Family) {
 	f.(*family).condition.Wait()
@@ -18,4 +20,9 @@ func VerifActiveFiles(f Family) (out []int64) {
 		out = append(out, fm.GetFileNumber().Int64())
 	}
 	return out
+}
+
+// VerifStoreCache returns the store's table reader cache.
+func VerifStoreCache(s Store) table.Cache {
+	return s.(*store).cache
 }
